@@ -22,3 +22,34 @@ Theorem C02_spec_wildcards_never_match_sep : forall ci neg items,
   /\ rx_match ci (den_pat false true PQm) [47%N] = false.
 Proof. exact spec_wild_no_sep. Qed.
 Print Assumptions C02_spec_wildcards_never_match_sep.
+
+(* ---- flat path patterns, end to end ------------------------------------------------------------------------------------
+   Segments of literals, escaped characters, `?` and single `*`, joined by `/` (relative, no `**`), path mode under Unix
+   rules without NODOTDIR/REALPATH/MATCHBASE/EXTMATCH, GLOBSTAR and DOTMATCH on or off, str/bytes.  The parser model's text is
+   the printed form of a regular expression [r]; under the formal semantics C02Path.X of that regex fragment, [r] fully
+   matches a name without line feeds exactly when the name splits into one separator-free piece per pattern segment,
+   the pieces separated by non-empty runs of `/` and followed by any run of `/`, and each piece matches its segment
+   (C02Path.DenSeg).  In particular neither `?` nor `*` ever matches the separator. *)
+From WC Require FlagFuns.
+From WC.Proofs Require C01Flat C02Path.
+
+Theorem C02_flat_path_language : forall flags isb segs,
+  segs <> [] -> Forall (fun sg => C02Path.seg_wf sg = true) segs ->
+  has flags Mwcparse.PATHNAME = true -> FlagFuns.is_unix_style linux flags = true -> has flags Mwcparse.EXTMATCH = false ->
+  has flags Mwcparse.NODOTDIR = false -> has flags Mwcparse.REALPATH = false ->
+  has flags Mwcparse.u_ANCHOR = false -> has flags Mwcparse.MATCHBASE = false ->
+  has flags Mwcparse.u_EXTMATCHBASE = false -> has flags Mwcparse.u_TRANSLATE = false ->
+  exists r,
+    wcparse linux flags isb (C02Path.punparse segs) =
+      inl (S_ "^(?s" ++ (if FlagFuns.get_case linux flags then [] else S_ "i") ++ S_ ":" ++ C02Path.xprint r ++ S_ ")$") /\
+    forall n, C02Path.nonl n -> (C02Path.X r n [] <-> C02Path.DenPath (has flags Mwcparse.DOTMATCH) segs n).
+Proof. exact C02Path.C02_flat_path_language. Qed.
+Print Assumptions C02_flat_path_language.
+
+Theorem C02_wildcards_never_match_separator : forall dot segs n,
+  segs <> [] -> Forall (fun sg => C02Path.pwf sg = true) segs -> C02Path.nonl n ->
+  C02Path.X (C02Path.emit_path dot segs) n [] ->
+  exists pieces, length pieces = length segs /\ Forall (fun p => ~ In 47%N p) pieces /\
+                 Forall2 (C02Path.DenSeg dot true) segs pieces.
+Proof. exact C02Path.wildcards_never_match_separator. Qed.
+Print Assumptions C02_wildcards_never_match_separator.
